@@ -20,7 +20,7 @@ import itertools
 import struct
 
 from .. import core, molgen
-from ..gen import gen_bitlayout, gen_periodic, gen_query
+from ..gen import gen_bitlayout, gen_c09cache, gen_periodic, gen_query
 
 LEVEL = 'proof'
 LEVEL_TEXT = ('The claim "both matcher configurations return the same mappings" is a theorem about the executable models the driver '
@@ -82,7 +82,9 @@ def generate(ctx):
         _state['gen_query_error'] = f'{type(e).__name__}: {e}'
     p, info = gen_bitlayout.generate()
     _state['layout'] = info
-    return paths + [p]
+    pc, cinfo = gen_c09cache.generate()
+    _state['cache'] = cinfo
+    return paths + [p, pc]
 
 
 def install():
@@ -626,6 +628,79 @@ TRICKY_PAIRS = [
 ]
 
 
+# cage / multiply bridged targets: a candidate for a ring-closing query atom can have MORE matched neighbours than the query
+# has closures (rejected by the counter) and a later candidate the right number but the wrong partners — the only situation in
+# which the scratch array `closures[]` of the .pyx must really have been zeroed
+CAGES = ['C1C2C3CC1C23', 'C1C2C3C1C3C2', 'C1CC2CC3CC1C23', 'C1C2C1C1CC21', 'C1C2C3CC4C1C4C23', 'C1CC2C3CCC3C2C1',
+         'C1C2CC3CC1CC(C2)C3', 'C12C3C4C1C5C2C3C45', 'C1CC2CCC1C2', 'C1CC2CCC1CC2', 'C12C3C1C1C2C31', 'C1CCC2CCCCC2C1',
+         'C1CC2CC12', 'C12CC1C2', 'C1C2CC1C2', 'C1C2C1C2', 'C1CC2(C1)CC2', 'C1CC2CC1C2', 'C1C2CC3C1C3C2', 'C1CC2C3CC1C23',
+         'C1C2C3C4C1C5C2C5C34', 'C1CC2C1C1CC21', 'C1C2C3C2C13', 'C1CC23CC2C13', 'N1C2C3CC1C23', 'O1C2C3CC1C23', 'CC1C2C3CC1C23',
+         'C1CC2C3CC(C1)C23', 'C1C2CC3C1CC23']
+RING_QUERIES = ['[#6]1[#6][#6]1', '[#6]1[#6][#6][#6]1', '[#6]1[#6][#6][#6][#6]1', '[#6]1[#6][#6][#6][#6][#6]1',
+                '[#6]1[#6][#6][#6][#6][#6][#6]1', '[#6]1[#6][#6]([#6])[#6]1', 'CC1CCC1', 'CC1CCCC1', 'CC1CC1', 'C1CC1C', 'CC1CCCCC1',
+                'C1CCC1', 'C1CCCC1', 'C1CCCCC1', '[A]1[A][A][A]1', '[A]1[A][A][A][A]1', 'C1CC(C)CC1C', 'C1C(C)C1C', 'C(C)1CC(C)C1',
+                'C1CC2CC12', 'C1CC2CCC12', 'C1CC2CC2C1', 'C1CCC2CC2C1', '[A]1[A][A]2[A][A]12', 'C1CC1C1CC1', 'CC1(C)CC1']
+
+
+def cage_targets(ctx):
+    if 'cages' in _state:
+        return _state['cages']
+    rng = ctx.rng
+    out = []
+    for s in CAGES:
+        m = molgen.parse(s)
+        if m is not None:
+            out.append((s, m))
+    try:
+        for name, m in molgen.test_files():
+            if name.startswith('cycle.sdf') and 3 <= len(m) <= 40:
+                out.append((name, m))
+    except Exception:
+        pass
+    # bridged / fused / spiro assemblies, keeping the polycyclic ones
+    tries = 0
+    want = 25 if ctx.quick else 250
+    while sum(1 for n, _ in out if n.startswith('assembly')) < want and tries < 40 * want:
+        tries += 1
+        try:
+            m = molgen.from_edges(molgen.ring_assembly(rng, max_rings=4))
+        except Exception:
+            continue
+        if m.rings_count >= 2 and len(m) <= 24:
+            out.append((f'assembly{tries}', m))
+    for name, m in list(out[:12 if ctx.quick else 40]):
+        try:
+            r, _ = molgen.renumber(rng, m)
+            out.append((name + '/renum', r))
+        except Exception:
+            continue
+    _state['cages'] = out
+    return out
+
+
+def cage_pairs(ctx):
+    """every ring query x every cage target (both filter settings on the first pass), and cyclic patterns cut from the cages —
+    induced and with one cycle bond dropped — searched in their source and in other cages"""
+    rng = ctx.rng
+    cages = cage_targets(ctx)
+    qs = [(s, parse_smarts(s)) for s in RING_QUERIES]
+    qs = [(s, q) for s, q in qs if q is not None]
+    for qs_, q in qs:
+        for name, m in cages:
+            if name.endswith('/renum') and rng.random() < 0.5:
+                continue
+            yield (f'{qs_} @ {name}', q, m, False, None)
+    for name, m in cages:
+        if m.rings_count < 2:
+            continue
+        for k in range(3 if ctx.quick else 12):
+            q = cut_pattern(rng, m, rng.randint(3, min(8, len(m))), drop_cycle_bond=(k % 2 == 0), plain=True)
+            if not any(len(q._bonds[n]) >= 2 for n in q._bonds):
+                continue
+            tname, t = (name, m) if k % 3 else rng.choice(cages)
+            yield (f'cagecut({name}) @ {tname}', q, t, rng.random() < 0.3, None)
+
+
 def parse_smarts(text):
     from chython import smarts
     try:
@@ -634,7 +709,7 @@ def parse_smarts(text):
         return None
 
 
-def cut_pattern(rng, mol, size, flags=None, drop_cycle_bond=False):
+def cut_pattern(rng, mol, size, flags=None, drop_cycle_bond=False, plain=False):
     """connected sub-pattern of `mol` as a QueryContainer (random label flags, ring marks on bonds at random)"""
     from chython.containers import QueryContainer
     from chython.containers.bonds import QueryBond
@@ -656,8 +731,8 @@ def cut_pattern(rng, mol, size, flags=None, drop_cycle_bond=False):
     rng.shuffle(order)
     for n in order:
         a = mol._atoms[n]
-        fl = {k: rng.random() < 0.3 for k in ('neighbors', 'hybridization', 'heteroatoms', 'hydrogens', 'ring_sizes')}
-        r = rng.random()
+        fl = {k: (not plain) and rng.random() < 0.3 for k in ('neighbors', 'hybridization', 'heteroatoms', 'hydrogens', 'ring_sizes')}
+        r = 1.0 if plain else rng.random()
         if r < 0.12:
             qa = AnyElement(charge=a.charge, is_radical=a.is_radical)
             if fl['neighbors']:
@@ -678,11 +753,11 @@ def cut_pattern(rng, mol, size, flags=None, drop_cycle_bond=False):
         for k, b in mol._bonds[n].items():
             if k in q._atoms and (k, n) not in done:
                 done.add((n, k))
-                r = rng.random()
+                r = 1.0 if plain else rng.random()
                 if r < 0.15:
                     qb = QueryBond(sorted({b.order, rng.choice([1, 2, 4])}), in_ring=None)
                 else:
-                    qb = QueryBond.from_bond(b, in_ring=rng.random() < 0.4)
+                    qb = QueryBond.from_bond(b, in_ring=(not plain) and rng.random() < 0.4)
                 q._bonds[n][k] = q._bonds[k][n] = qb
     # non-induced patterns: drop a bond that lies on a cycle of the pattern (the pattern stays connected); the target then has a
     # bond between matched atoms that the pattern does not have, which both matchers must refuse (closure set / closure counter)
@@ -742,6 +817,7 @@ def pair_stream(ctx, n_smarts_pairs, n_cut, n_multi):
             atoms = list(m._atoms)
             scope = sorted(rng.sample(atoms, rng.randint(0, len(atoms))))
         yield (f'{s} @ {name}', q, m, auto, scope)
+    yield from cage_pairs(ctx)
     for qs_, ms_ in TRICKY_PAIRS:
         q, m = parse_smarts(qs_), molgen.parse(ms_)
         if q is not None and m is not None:
@@ -1126,9 +1202,159 @@ def stream_mt(ctx):
         ctx.sample({'stream': 'mt', 'request': lines[0][:300], 'model': resp[0] if resp else None, 'real': str(reals[0])[:200]})
 
 
+# ------------------------------------------------------------------------------------------------
+# history: the packed buffers are cached on the objects; derived / edited objects must never search in stale bits
+# ------------------------------------------------------------------------------------------------
+
+HIST_SMILES = ['CC(=O)CC(C)=O', 'O=C1CCCCC1', 'CCOC(=O)CC(C)=O', 'CC(=O)CN', 'O=C1CC(=O)CC(=O)C1', 'CC(=O)CC', 'OC1=CC=CC=C1', 'Oc1ccccc1',
+               'O=C1C=CC=CN1', 'Oc1ccccn1', 'NC(=O)C', 'CC(O)=N', 'C[N+](=O)[O-]', 'CN(=O)=O', 'CC(=O)[O-].[Na+]', 'CC(=O)O', 'C[NH3+].[Cl-]',
+               'C1=CC=CC=C1', 'c1ccccc1', 'C1=CC=C2C=CC=CC2=C1', 'c1ccc2[nH]ccc2c1', 'C1=CNC=C1', 'CC=O', 'C=CO', 'N=C(N)N', 'NC(N)=O',
+               'CS(=O)C', 'C[S+](C)[O-]', 'O=C(O)CC(=O)O', 'NCC(=O)O', '[NH3+]CC(=O)[O-]', 'CC(=O)C1CC1', 'O=C1CC2CCC1C2', 'CC(C)=NO',
+               'Cc1cc(=O)[nH]c(=O)[nH]1', 'Oc1ncnc2[nH]cnc12', 'CC(=N)O', 'OC=CC=O', 'CC(=O)C=C(C)O', 'C#CC(C)=O', 'N#CCC(C)=O']
+HIST_QUERIES = ['[C]=[O]', '[C]=[C]-[O;h1]', '[C;z2]', '[C;z1]', '[O;D1;h1]', '[C;h2]', '[C;h1]', '[C;h3]', '[N;h1]', '[N;h0]', '[N;h2]', '[A;a]',
+                '[C;a]:[C;a]', 'C=C', 'C-C', 'C:C', '[O-]', '[N+]', '[O;h0;D1]', '[C;D3]', '[C;z3]', 'C=N', 'C-[O;h1]', '[A;h0]', '[A;h1,h2]']
+HIST_OPS = ['copy', 'copy_keep', 'kekule', 'thiele', 'standardize', 'canonicalize', 'neutralize', 'explicify_hydrogens',
+            'implicify_hydrogens', 'fix_resonance', 'remove_acids', 'standardize_charges', 'clean_stereo', 'tautomers', 'kekule_forms',
+            'charged_tautomers', 'substructure', 'union', 'transaction_charge', 'delete_atom', 'add_bond']
+
+
+def hist_queries():
+    if 'hq' not in _state:
+        qs = [(s, parse_smarts(s)) for s in HIST_QUERIES]
+        _state['hq'] = [(s, q) for s, q in qs if q is not None]
+    return _state['hq']
+
+
+def prime(m):
+    """run accelerated searches so that the packed structure is cached on the object"""
+    for _, q in hist_queries()[:3]:
+        fresh(q)
+        try:
+            list(q.get_mapping(m))
+        except Exception:
+            pass
+
+
+def derive(m0, op, rng):
+    """objects derived from / edited after the primed `m0`: list of (label, molecule)"""
+    out = []
+    if op == 'copy':
+        out.append((op, m0.copy()))
+    elif op == 'copy_keep':
+        out.append((op, m0.copy(keep_sssr=True, keep_components=True)))
+        out.append((op + '/sssr', m0.copy(keep_sssr=True)))
+    elif op in ('kekule', 'thiele', 'standardize', 'canonicalize', 'neutralize', 'explicify_hydrogens', 'implicify_hydrogens',
+                'fix_resonance', 'remove_acids', 'standardize_charges', 'clean_stereo'):
+        for keep in (False, True):
+            c = m0.copy(keep_sssr=keep, keep_components=keep)
+            if keep:
+                prime(c)
+            getattr(c, op)()
+            out.append((op + ('/on-kept-copy' if keep else '/on-copy'), c))
+        getattr(m0, op)()        # and in place, on the primed object itself
+        out.append((op + '/in-place', m0))
+    elif op == 'tautomers':
+        for i, t in enumerate(m0.enumerate_tautomers(limit=12)):
+            out.append((f'{op}[{i}]', t))
+            if i >= 11:
+                break
+    elif op == 'charged_tautomers':
+        for i, t in enumerate(m0.enumerate_charged_tautomers()):
+            out.append((f'{op}[{i}]', t))
+            if i >= 7:
+                break
+    elif op == 'kekule_forms':
+        for i, t in enumerate(m0.enumerate_kekule()):
+            out.append((f'{op}[{i}]', t))
+            if i >= 5:
+                break
+    elif op == 'substructure':
+        atoms = list(m0)
+        sub = rng.sample(atoms, max(1, len(atoms) - 1))
+        out.append((op, m0.substructure(sub)))
+        out.append((op + '/and', m0 & sub))
+    elif op == 'union':
+        out.append((op, m0 | molgen.parse('CO').copy() if False else m0.union(molgen.parse('CO'), remap=True)))
+    elif op == 'transaction_charge':
+        n = rng.choice(list(m0))
+        with m0:
+            m0.atom(n).charge = 1 if m0.atom(n).charge == 0 else 0
+        out.append((op, m0))
+    elif op == 'delete_atom':
+        n = rng.choice(list(m0))
+        m0.delete_atom(n)
+        out.append((op, m0))
+    elif op == 'add_bond':
+        n = m0.add_atom('O')
+        m0.add_bond(n, rng.choice([x for x in m0 if x != n]), 1)
+        out.append((op, m0))
+    return out
+
+
+def hist_case(smi, op, rng):
+    """-> list of (label, derived molecule); the parent is parsed afresh and primed"""
+    m0 = molgen.parse(smi)
+    if m0 is None:
+        return []
+    prime(m0)
+    try:
+        return derive(m0, op, rng)
+    except Exception:
+        return []
+
+
+def hist_compare(ctx, smi, op, seed, label, d):
+    """the property on a derived object; returns number of failures"""
+    bad = 0
+    for qs_, q in hist_queries():
+        fresh(q)
+        rc = run_path(q, d, True, False)
+        fresh(q)
+        rp = run_path(q, d, False, False)
+        ctx.count(('hist', smi, label, qs_), nontrivial=rp[0] == 'ok' and bool(rp[1]))
+        if rc != rp:
+            try:
+                feats = features(q, d)
+            except Exception:
+                feats = []
+            if feats:
+                ctx.dist('hist:known-gap:' + feats[0])
+                continue
+            bad += 1
+            ctx.fail('C09/paths-differ-after-history/' + op.split('/')[0] + '/' + describe(rc, rp),
+                     f'{smi} -> {label}, query {qs_}: accelerated {str(rc)[:200]} reference {str(rp)[:200]}',
+                     {'kind': 'history', 'smiles': smi, 'op': op, 'label': label, 'smarts': qs_, 'seed': seed})
+        else:
+            # informational: an independent object re-read from the derived molecule's own SMILES
+            try:
+                fresh(q)
+                rr = run_path(q, molgen.parse(str(d)), False, False)
+                ctx.dist('hist:reparsed-same-count' if rr[0] == rp[0] == 'ok' and len(rr[1]) == len(rp[1]) else 'hist:reparsed-differs')
+            except Exception:
+                pass
+    return bad
+
+
+def stream_hist(ctx):
+    import random
+    smis = list(HIST_SMILES)
+    extra = molgen.corpus_smiles()
+    smis += ctx.rng.sample(extra, 12 if ctx.quick else 150)
+    ops = HIST_OPS
+    n = 0
+    for smi in smis:
+        for op in (ops if smi in HIST_SMILES[:14] or not ctx.quick else ctx.rng.sample(ops, 5)):
+            seed = ctx.rng.randrange(1 << 30)
+            for label, d in hist_case(smi, op, random.Random(seed)):
+                ctx.dist('hist:' + op)
+                n += 1
+                hist_compare(ctx, smi, op, seed, label, d)
+    ctx.sample({'stream': 'hist', 'objects': n, 'ops': ops})
+
+
 def correspond(ctx):
     install()
-    ctx.cov['programs'] = 6  # _cython_compiled_structure, _cython_compiled_query, _isomorphism.get_mapping (translated), QueryIsomorphism.get_mapping x2 settings, _get_mapping, Query.__eq__/QueryBond.__eq__
+    ctx.cov['programs'] = 8  # + MoleculeContainer.copy/flush_cache hand-over, enumerate_tautomers & in-place normalisers after a primed search; _cython_compiled_structure, _cython_compiled_query, _isomorphism.get_mapping (translated), QueryIsomorphism.get_mapping x2 settings, _get_mapping, Query.__eq__/QueryBond.__eq__
     stream_ea(ctx)
     stream_eq(ctx)
     stream_es(ctx)
@@ -1147,6 +1373,7 @@ def correspond(ctx):
     else:
         pairs = pair_stream(ctx, 20000, 16000, 3000)
     stream_gm(ctx, pairs)
+    stream_hist(ctx)
     ctx.exhaustive = False
     if _state.get('gen_query_error'):
         ctx.notes.append('gen_query (C08 translator) could not run: ' + _state['gen_query_error'][:300] +
@@ -1214,6 +1441,13 @@ def search(ctx):
         if time.time() - t0 > budget or found >= 8:
             break
         found += check_pair(ctx, name, q, m, auto, scope)
+    # 4. histories (derived / edited objects after an accelerated search primed the packed structure)
+    before = len(ctx.failures)
+    try:
+        stream_hist(ctx)
+    except Exception:
+        pass
+    found += len(ctx.failures) - before
     ctx.notes.append(f'search: {found} failing inputs in {time.time() - t0:.1f}s')
 
 
@@ -1224,6 +1458,18 @@ def search(ctx):
 def probe(inp):
     """does the PROPERTY fail on this input on the real code? (both paths, same flags; mappings as sorted multisets)"""
     install()
+    if inp.get('kind') == 'history':
+        import random
+        q = parse_smarts(inp['smarts'])
+        for label, d in hist_case(inp['smiles'], inp['op'], random.Random(inp['seed'])):
+            if label != inp['label']:
+                continue
+            fresh(q)
+            rc = run_path(q, d, True, False)
+            fresh(q)
+            rp = run_path(q, d, False, False)
+            return rc != rp, f'{inp["smiles"]} -> {label}: accelerated path: {str(rc)[:300]}; reference path: {str(rp)[:300]}'
+        return False, 'derived object not reproduced'
     if inp.get('kind') == 'smarts-smiles':
         from chython import smarts, smiles
         q, m = smarts(inp['smarts']), smiles(inp['smiles'])
